@@ -36,6 +36,7 @@ class SolveLog:
         self.result = None
         self.f_after = None
         self.raised = None
+        self.api = None
 
     # derived views ------------------------------------------------------------
     def trajectory(self):
@@ -60,9 +61,42 @@ class SolveLog:
         return its
 
 
+_pending = []      # arguments of the public solve()/restart() call in progress (recorded at the API boundary)
+
+
+def _api_before(name):
+    def before(args, kwargs):
+        # solve(self, f, condition, tsave=[], stop=None, flush=None, monitors={}, directives={})  /  restart(...) same signature
+        names = ["f", "condition", "tsave", "stop", "flush", "monitors", "directives"]
+        a = dict(zip(names, args[1:]))
+        a.update({k: v for k, v in kwargs.items() if k in names})
+        rec = {"method": name, "tsave": [float(t) for t in a.get("tsave", [])], "stop": dict(a["stop"]) if a.get("stop") else None,
+               "directives": dict(a.get("directives") or {}), "f_time": a["f"].time if "f" in a else None}
+        _pending.append(rec)
+        return rec
+    return before
+
+
+def _api_after(args, kwargs, result, rec):
+    if rec in _pending:
+        _pending.remove(rec)
+
+
+def _api_error(args, kwargs, exc, rec):
+    if rec in _pending:
+        _pending.remove(rec)
+
+
 def _solve_before(args, kwargs):
     solver = args[0]
     log = SolveLog(solver, args[1:8])
+    if _pending:
+        # what the CALLER asked for (save times, stop criteria, directives), as opposed to what reached _solve: a public method that
+        # edits its arguments before delegating would otherwise be judged against its own edited request
+        api = _pending[-1]
+        log.api = api
+        log.tsave_at_solve, log.stop_at_solve = log.tsave, log.stop
+        log.tsave, log.stop, log.directives = list(api["tsave"]), (dict(api["stop"]) if api["stop"] else None), dict(api["directives"])
     _stack.append(log)
     return log
 
@@ -140,6 +174,8 @@ def install(with_solve=True):
         probes.hook(cls, "step", before=sb, after=_step_after, error=_step_error)
     if with_solve:
         probes.hook(tn.timemodel, "_solve", before=_solve_before, after=_solve_after, error=_solve_error)
+        for meth in ("solve", "restart"):
+            probes.hook(tn.timemodel, meth, before=_api_before(meth), after=_api_after, error=_api_error)
         probes.hook(tn.timemodel, "_parse_monitors", after=_pm_after)
         probes.hook(md.fvm1d, "calc_timestep", after=_dt_after)
         probes.hook(md.fvm2dcart, "calc_timestep", after=_dt_after)
@@ -150,3 +186,4 @@ def reset():
     _depth["step"] = 0
     del _stack[:]
     del LOGS[:]
+    del _pending[:]
